@@ -82,6 +82,8 @@ def make_c01_replay(ref, v, pid='C01'):
             expected = {'kind': 'many', 'arrays': [one(b) for b in bexp[1]]}
     case = {'property': pid, 'handler': 'c01', 'signature': v['signature'], 'what': v['what'],
             'call': v['call'], 'mode': v.get('mode', 'index'), 'expected': expected, 'structure': ref.describe()}
+    if v.get('history'):
+        case['history'] = v['history']          # box reads made, in order, on one retained level-data object; the last one is judged
     with open(os.path.join(d, 'case.json'), 'w') as f:
         json.dump(case, f, indent=1)
     common.write_replay_stub(d)
@@ -104,6 +106,8 @@ def make_c15_replay(ref, v):
     expected = {'kind': 'multiset', 'arrays': [_arr_hex(data[lv][b][..., fexp[1]]) for b in range(len(ref.boxes[lv]))]}
     case = {'property': 'C15', 'handler': 'c15_list', 'signature': v['signature'], 'what': v['what'],
             'call': v['call'], 'expected': expected, 'structure': ref.describe()}
+    if v.get('retain'):
+        case['retain'] = True           # one level-data object: a box read, then iterated repeatedly
     with open(os.path.join(d, 'case.json'), 'w') as f:
         json.dump(case, f, indent=1)
     common.write_replay_stub(d)
@@ -162,7 +166,15 @@ def replay_c01(d, case):
     fsel, lv, bsel = (eval(e, env) for e in case['call'])
     exp = case['expected']
     try:
-        if case.get('mode') == 'iter':
+        if case.get('history'):
+            ld = pck[fsel][lv]
+            for b in case['history'][:-1]:
+                try:
+                    ld[eval(b, env)]
+                except Exception:
+                    pass
+            got = ld[eval(case['history'][-1], env)]
+        elif case.get('mode') == 'iter':
             got = list(pck[fsel][lv].iter(bsel)) if not isinstance(bsel, (int, np.integer)) else pck[fsel][lv].iter(bsel)
         else:
             got = pck[fsel][lv][bsel]
@@ -193,9 +205,16 @@ def replay_c15_list(d, case):
     lv = int(case['call'][1])
     exp = [_arr_from_hex(a) for a in case['expected']['arrays']]
     # run it a few times: the order of completion is the OS's
+    ld = None
+    if case.get('retain'):
+        ld = pck[fsel][lv]
+        try:
+            ld[0]
+        except Exception:
+            pass
     for attempt in range(3):
         try:
-            got = list(pck[fsel][lv])
+            got = list(ld if ld is not None else pck[fsel][lv])
         except Exception as e:
             return True, 'raised %s: %s' % (type(e).__name__, e)
         if len(got) != len(exp):
@@ -462,6 +481,7 @@ def replay_c20(d, case):
             # scan for FAB header lines naming this index range
             want = '((%s) (%s)' % (','.join(map(str, lo_)), ','.join(map(str, hi_)))
             cands = []
+            short = []
             pos = 0
             while True:
                 i = raw.find(want.encode(), pos)
@@ -472,9 +492,16 @@ def replay_c20(d, case):
                     break
                 n = int(np.prod(shp)) * nf
                 body = raw[nl + 1: nl + 1 + 8 * n]
-                if len(body) == 8 * n:
+                nxt = raw.find(b'FAB ((', nl + 1)
+                if 0 <= nxt - (nl + 1) < 8 * n:
+                    # the next FAB header starts before this FAB holds the declared number of values
+                    short.append((nxt - (nl + 1), 8 * n))
+                elif len(body) == 8 * n:
                     cands.append(np.frombuffer(body, dtype='<f8').reshape(shp + (nf,), order='F'))
                 pos = nl + 1
+            if short and not cands:
+                return True, ('accepted, but the FAB naming the index range of level %d box %d holds %d of the %d bytes the level header declares '
+                              '(the box read back has the declared shape: it cannot be the values of that FAB)' % ((l, b) + short[0]))
             if not any(bit_equal(got, c) for c in cands):
                 return True, 'accepted, but level %d box %d does not hold the values of the FAB naming its index range' % (l, b)
     return False, 'accepted and read consistently'
